@@ -30,10 +30,10 @@ def lattice(tier):
     P = {}
     P['bornmayer'] = list(itertools.product(A, rho))
     P['buck'] = list(itertools.product(A, rho, [-4.0, 0, 32.5, 0.5]))
-    P['constant'] = [(c,) for c in (-2.5, 0, 0.3, 1e6, 7)]
-    q = [-2.0, 0, 0.5, 4, 1.1]
+    P['constant'] = [(c,) for c in (-2.5, 0, 0.3, 1e6, 7, -1, -2, -1.0, -2.0)]      # hash(-1) == hash(-2)
+    q = [-2.0, -1.0, 0, 0.5, 4, 1.1, -1, -2]
     P['coul'] = list(itertools.product(q, q))
-    P['exponential'] = list(itertools.product([-1.5, 0, 2.0, 300.0], [-6, -1, 0, 1, 2, 3.5, 3, -2.5]))
+    P['exponential'] = list(itertools.product([-1.5, 0, 2.0, 300.0, -1, -2], [-6, -1, -2, 0, 1, 2, 3.5, 3, -2.5]))
     P['exp_spline'] = [(0.1, -0.2, 0.05, 0.01, -0.002, 0.0001, 0.3), (1.5, -0.9, 0.0, 0.0, 0.0, 0.0, 0.0), (0.0, 0.0, 0.0, 0.0, 0.0, 0.0, -2.0),
                        (-1.0, 0.3, -0.04, 0.002, -0.00005, 0.0000004, 12.5), (2, -1, 0, 0, 0, 0, 1), (0.3, 0.2, 0.01, -0.003, 0.0002, -0.000006, -0.7)]
     h = [-3.0, 0, 0.8, 2500.0, 45.5]
@@ -48,8 +48,10 @@ def lattice(tier):
         polys.append(tuple(alt[:order + 1]))
         polys.append(tuple([0.0] * order + [2.5]))
         polys.append(tuple(float(k + 1) * (-1) ** k / (1 + k * k) for k in range(order + 1)))
+        polys.append(tuple([-1] * (order + 1)))
+        polys.append(tuple([-1] * order + [-2]))
     P['polynomial'] = polys
-    P['sqrt'] = [(g,) for g in (-3.0, 0, 0.5, 40.0, 2.25)]
+    P['sqrt'] = [(g,) for g in (-3.0, 0, 0.5, 40.0, 2.25, -1, -2)]
     P['tang_toennies'] = list(itertools.product([41.96, 0, -3.0], [2.523, 1.2], [1.461, 0], [14.11, 0], [183.6, 0]))
     z = [1, 8, 14, 92, 7.5]
     P['zbl'] = list(itertools.product(z, z))
@@ -115,6 +117,25 @@ def ref_value(name, r, p):
     return F.FORMS[name](Jet.var(r), *p).v
 
 
+def spell(v, style):
+    """parameter text: style 0 shortest repr; 1 integer mantissa with exponent (25e-1); 2 upper-case exponent with sign; 3 leading / trailing point"""
+    from decimal import Decimal
+    if isinstance(v, int):
+        return str(v)
+    base = X.num(v)
+    if style == 1:
+        sign, digits, exp = Decimal(repr(float(v))).as_tuple()
+        ds = ''.join(map(str, digits)).lstrip('0') or '0'
+        out = '%s%se%d' % ('-' if sign else '', ds, exp)
+    elif style == 2:
+        out = ('%.17E' % v)
+    elif style == 3:
+        out = base[1:] if base.startswith('0.') else ('-' + base[2:] if base.startswith('-0.') else (base[:-1] if base.endswith('.0') else base))
+    else:
+        out = base
+    return out if float(out) == float(v) else base
+
+
 def route_values(name, vecs, rs):
     """-> {route: [[value per r] per vec]}"""
     import atsim.potentials.potentialfunctions as pf
@@ -134,7 +155,7 @@ def route_values(name, vecs, rs):
     # potable routes: one file, one [Pair] entry per parameter vector
     lines = ['[Tabulation]', 'target : LAMMPS', 'nr : 3', 'cutoff : 1.0', '', '[Pair]']
     for i, p in enumerate(vecs):
-        lines.append('S%d-Q : as.%s %s' % (i, name, ' '.join(X.num(v) for v in p)))
+        lines.append('S%d-Q : as.%s %s' % (i, name, ' '.join(spell(v, i % 4) for v in p)))
     tab = R.config_read('\n'.join(lines) + '\n')
     pots = {pt.speciesA: pt for pt in tab.potentials}
     out['as.NAME in [Pair]'] = [[ev(pots['S%d' % i].energy, r) for r in rs] for i in range(len(vecs))]
